@@ -23,7 +23,7 @@ REQUIRED_MONITORS = ["C20.stencil==lagrange-integral", "C20.stencil:sum=1", "C20
                      "C20.ends:trapezoid-step", "C20.transition:stencil-or-trapezoid"]
 REQUIRED_COUNTERS = {"C20.stencils_enumerated": 36, "C20.steps_must_stencil": 50, "C20.steps_must_trapezoid": 20}
 TIMEOUT = {"quick": 600, "thorough": 2400}
-N = {"quick": (4, 120), "thorough": (14, 3000)}
+N = {"quick": (4, 120), "thorough": (16, 15000)}
 
 
 def plan(tier, seed):
